@@ -1,4 +1,5 @@
 import GomlVerif.Lemmas.GoCompSim
+import GomlVerif.Lemmas.MonoTy
 /-! expression-level step of the simulation: immediates, unary / binary operators, calls -/
 set_option linter.unusedSimpArgs false
 set_option linter.unusedVariables false
@@ -768,7 +769,7 @@ theorem veccall_sim {env : Env} {file : AFile} {G : List String} {P : Prog} {F :
                     · exact ev_call (ev_var_none hgo2) (evl_cons (hgaE gw) evl_nil) (call_len_slice hl.vecGo.len)
                   rw [haty]
                   exact ⟨η, η.le_refl, _, gw, ev_call (ev_var_none hgo1) (evl_cons hlenE evl_nil) (call_int32 hl.vecGo.int32),
-                    by simp [VRel], ⟨rfl, rfl⟩, hw, fun h => by cases h⟩
+                    by simp [VRel], ⟨rfl, rfl, wrap_wrap _ _ _⟩, hw, fun h => by cases h⟩
             | _ => rw [haty] at hcase; cases hcase
         · rw [if_neg h4] at hcase; cases hcase
 
@@ -808,7 +809,7 @@ theorem localcall_sim {env : Env} {file : AFile} {G : List String} {P : Prog} {F
     (η : Hp) (Γ : Ctx) (ρ : Sem.Env) (w : World) (gρ : GEnv) (gw : GWorld)
     (x : String) (fty : Ty) (args : List Imm) (ty : Ty)
     (hfrag : localCallOK env file G Γ (.var x fty) args ty = true) (hrel : EnvRel env η Γ ρ gρ) (hw : WRel env η w gw)
-    (hfr : FnRel file G η gρ) :
+    (hfr : FnRel file G η gρ) (hdq : η.dyns = dynTable env file G) :
     ConclV env η F (compileCExpr env (.call (.var x fty) args ty)) gρ gw ty false true w
       (Sem.eval (n + 1) P ρ w (CExpr.call (.var x fty) args ty).toExpr) := by
   simp only [localCallOK] at hfrag
@@ -844,7 +845,7 @@ theorem localcall_sim {env : Env} {file : AFile} {G : List String} {P : Prog} {F
       · rw [h2]; simp only
         have hcallr : ConclCall env η F (vn name) gvs gw ty (Sem.apply (n + 1) P w (.fn name) vs) := by
           rcases fnSigs_spec hmem with ⟨g, hg, hgn, hG, hent, hrn, hps, hr⟩ | ⟨hbn, hsig⟩
-          · have hc := hu g hg hG η vs gvs w gw hfr.eq (by rw [← hps]; exact hrelA) hw
+          · have hc := hu g hg hG η vs gvs w gw hfr.eq hdq (by rw [← hps]; exact hrelA) hw
             have hfn : fnName name = vn name := by
               simp only [fnName, hent, Bool.false_eq_true, if_false]
               unfold vn; rw [hrn]
@@ -861,6 +862,184 @@ theorem localcall_sim {env : Env} {file : AFile} {G : List String} {P : Prog} {F
           | panic k =>
             rintro ⟨η1, hle1, gw', hc, h5⟩
             exact ⟨η1, hle1, gw', ev_call (ev_var_some hgv) (hgA gw) hc, h5, rfl⟩
+          | fuel => intro _; trivial
+          | stuck s => intro _; trivial
+
+/-! ### trait objects -/
+
+/-- an entry of the table of admissible vtables passes `dynEntryOK` -/
+theorem dynTable_spec {env : Env} {file : AFile} {G : List String} {tr : String} {forTy : Ty}
+    (h : (tr, forTy) ∈ dynTable env file G) : dynEntryOK env file G tr forTy = true := by
+  unfold dynTable at h
+  split at h
+  · simp only [List.mem_filter] at h; exact h.2
+  · cases h
+
+/-- what `dynEntryOK` says about one method of the trait -/
+theorem dynEntry_sig {env : Env} {file : AFile} {G : List String} {tr : String} {forTy : Ty}
+    (h : dynEntryOK env file G tr forTy = true) {s : String × List Ty × Ty} (hs : s ∈ (traitMethodSigs env tr).getD []) :
+    dynRecvTy env forTy = true ∧ (((traitMethodSigs env tr).getD []).map fun s => gid s.1).Nodup ∧
+    rn (Goml.Mono.traitImplFnName tr forTy s.1) = Goml.Mono.traitImplFnName tr forTy s.1 ∧
+    isEntry (Goml.Mono.traitImplFnName tr forTy s.1) = false ∧
+    ("self" :: (wrapParams 0 s.2.1).map (·.1)).Nodup ∧
+    ¬ gid (Goml.Mono.traitImplFnName tr forTy s.1) ∈ "self" :: (wrapParams 0 s.2.1).map (·.1) ∧
+    ∃ g, g ∈ file ∧ g.name = Goml.Mono.traitImplFnName tr forTy s.1 ∧ g.name ∈ G ∧
+      g.params.map (·.2) = forTy :: s.2.1 ∧ g.ret = s.2.2 := by
+  simp only [dynEntryOK, Bool.and_eq_true] at h
+  obtain ⟨⟨⟨hrecv, _⟩, _⟩, hsig⟩ := h
+  cases hts : traitMethodSigs env tr with
+  | none => rw [hts] at hs; simp at hs
+  | some sigs =>
+    rw [hts] at hsig hs; simp only [Option.getD_some, Bool.and_eq_true, decide_eq_true_eq, List.all_eq_true] at hsig hs
+    obtain ⟨hnd, hall⟩ := hsig
+    have h1 := hall s hs
+    simp only [Bool.and_eq_true, Bool.not_eq_true', beq_iff_eq, decide_eq_true_eq] at h1
+    obtain ⟨⟨⟨⟨⟨⟨_, _⟩, hrn⟩, hent⟩, hndp⟩, hnc⟩, hfile⟩ := h1
+    refine ⟨hrecv, by simpa using hnd, hrn, hent, hndp, by simpa using hnc, ?_⟩
+    cases hfind : file.find? (·.name == Goml.Mono.traitImplFnName tr forTy s.1) with
+    | none => rw [hfind] at hfile; cases hfile
+    | some g =>
+      rw [hfind] at hfile; simp only [Bool.and_eq_true] at hfile
+      obtain ⟨⟨hG, hps⟩, hret⟩ := hfile
+      have hgname : g.name = Goml.Mono.traitImplFnName tr forTy s.1 := by have := List.find?_some hfind; simpa using this
+      exact ⟨g, List.mem_of_find?_eq_some hfind, hgname, by rw [hgname]; simpa using hG, scalarEqs_eq hps, scalarEq_eq hret⟩
+
+/-- the slot of a method in the vtable cell -/
+theorem lookup_slots (f : String × List Ty × Ty → GVal) : ∀ (sigs : List (String × List Ty × Ty)) (s : String × List Ty × Ty),
+    (sigs.map fun s => gid s.1).Nodup → s ∈ sigs → lookupG (sigs.map fun s => (gid s.1, f s)) (gid s.1) = some (f s)
+  | [], s, _, hs => by cases hs
+  | s0 :: rest, s, hnd, hs => by
+    simp only [List.map_cons, List.nodup_cons] at hnd
+    simp only [List.map_cons]
+    rcases List.mem_cons.mp hs with rfl | hs'
+    · exact lookup_cons_self _ _ _
+    · have hne : gid s0.1 ≠ gid s.1 := fun e => hnd.1 (e ▸ List.mem_map_of_mem (f := fun s => gid s.1) hs')
+      rw [lookup_cons_ne _ _ hne]
+      exact lookup_slots f rest s hnd.2 hs'
+
+theorem todyn_sim {env : Env} {file : AFile} {G : List String} {P : Prog} {F : GFile} (hl : Link env file G P F) (n : Nat)
+    (η : Hp) (Γ : Ctx) (ρ : Sem.Env) (w : World) (gρ : GEnv) (gw : GWorld) (Bad : List String)
+    (tr : String) (forTy : Ty) (e : Imm) (ty : Ty)
+    (hfrag : toDynOK env file G Γ tr forTy e ty = true) (hrel : EnvRel env η Γ ρ gρ) (hw : WRel env η w gw)
+    (hgood : ∀ y, y ∈ keys gρ → ¬ y ∈ Bad) (hfc : FCtx env file G Bad η)
+    (hcal : ∀ x, x ∈ calleesC (Γ.map (·.1)) (.toDyn tr forTy e ty) → x ∈ Bad) :
+    ConclV env η F (compileCExpr env (.toDyn tr forTy e ty)) gρ gw ty false false w
+      (Sem.eval (n + 1) P ρ w (CExpr.toDyn tr forTy e ty).toExpr) := by
+  have hfr := hfc.rel hgood
+  simp only [toDynOK, Bool.and_eq_true, List.any_eq_true] at hfrag
+  obtain ⟨⟨⟨he, hety⟩, hty⟩, p, hp, hpq⟩ := hfrag
+  have hty' := scalarEq_eq hty; subst hty'
+  have hmem : (tr, forTy) ∈ dynTable env file G := by
+    obtain ⟨p1, p2⟩ := p
+    simp only [beq_iff_eq] at hpq
+    have h2 := (Goml.Mono.tyBeq_iff _ _).mp hpq.2
+    rw [← hpq.1, ← h2]; exact hp
+  have hdl := hl.dynGo tr forTy hmem
+  obtain ⟨v, gd, hs, hg, h3, h4⟩ := imm_both P hl.ty he hrel hfr
+  rw [scalarEq_eq hety] at h3 h4
+  have hbad : dynVtableCtorName tr forTy ∈ Bad := hcal _ (by simp [calleesC])
+  have hgo : lookupG gρ (dynVtableCtorName tr forTy) = none := lookup_none_of_not_key (fun hk => hgood _ hk hbad)
+  simp only [CExpr.toExpr, compileCExpr, goTy]
+  rw [Sem.eval]
+  rcases sem_imm_any hs (w := w) n with h1 | h1
+  · rw [h1]; trivial
+  · rw [h1]; simp only
+    obtain ⟨hle, hw'⟩ := hw.allocImm (vtableVal env tr forTy)
+    have hfields : EvFS F gρ gw
+        [.mk "data" (compileImm env e),
+         .mk "vtable" (.call (vtablePtrTy tr) (.var (dynVtableCtorName tr forTy) (.func [] (vtablePtrTy tr))) [])]
+        (.ok [("data", gd), ("vtable", .ptr gw.heap.size)] { gw with heap := gw.heap.push (vtableVal env tr forTy) }) :=
+      evf_cons (hg gw) (evf_cons (ev_call (ev_var_none hgo) evl_nil (dyn_ctor_call hdl gw)) evf_nil)
+    have hgoE := ev_slit_name (name := dynStructName tr) hfields
+    rw [slit_dyn hdl] at hgoE
+    refine ⟨_, hle, _, _, hgoE, ?_, ?_, hw', fun h => by cases h⟩
+    · simp only [VRel]
+      exact ⟨trivial, forTy, gd, gw.heap.size, by rw [hfc.deq]; exact hmem, rfl, HasTy_mono hle _ _ h4,
+        VRel_mono hle _ _ _ h3, by simp, rfl⟩
+    · simp only [HasTy]
+      exact ⟨trivial, forTy, by rw [hfc.deq]; exact hmem, rfl, HasTy_mono hle _ _ h4⟩
+
+theorem dyncall_sim {env : Env} {file : AFile} {G : List String} {P : Prog} {F : GFile} (hl : Link env file G P F) {n : Nat}
+    (hu : SimU env file G P F n)
+    (η : Hp) (Γ : Ctx) (ρ : Sem.Env) (w : World) (gρ : GEnv) (gw : GWorld) (Bad : List String)
+    (tr m : String) (recv : Imm) (args : List Imm) (ty : Ty)
+    (hfrag : dynCallOK env file G Γ tr m recv args ty = true) (hrel : EnvRel env η Γ ρ gρ) (hw : WRel env η w gw)
+    (hgood : ∀ y, y ∈ keys gρ → ¬ y ∈ Bad) (hfc : FCtx env file G Bad η) :
+    ConclV env η F (compileCExpr env (.dynCall tr m recv args ty)) gρ gw ty false true w
+      (Sem.eval (n + 1) P ρ w (CExpr.dynCall tr m recv args ty).toExpr) := by
+  have hfr := hfc.rel hgood
+  simp only [dynCallOK, Bool.and_eq_true] at hfrag
+  obtain ⟨⟨hr, hrty⟩, hcase⟩ := hfrag
+  cases hsg : dynSig env tr m with
+  | none => rw [hsg] at hcase; cases hcase
+  | some s =>
+    rw [hsg] at hcase; simp only [Bool.and_eq_true] at hcase
+    obtain ⟨hargs, hty⟩ := hcase
+    have hty' := scalarEq_eq hty; subst hty'
+    have hs : s ∈ (traitMethodSigs env tr).getD [] := List.mem_of_find?_eq_some hsg
+    have hsm : s.1 = m := by have := List.find?_some hsg; simpa using this
+    obtain ⟨v0, gr, hsr, hgr, h3, h4⟩ := imm_both P hl.ty hr hrel hfr
+    rw [scalarEq_eq hrty] at h3 h4
+    obtain ⟨vs, gvs, hrelA, hgA, hsA⟩ := imms_both P hl.ty hrel hfr hargs
+    -- the receiver is a trait object
+    cases v0 <;> simp only [HasTy] at h4 <;> try exact h4.elim
+    rename_i tr0 key v
+    simp only [VRel] at h3
+    obtain ⟨htr, forTy, gd, loc, hmemη, hkey, hvt, hvg, hcellη, hgre⟩ := h3
+    subst htr
+    subst hgre
+    have hmem : (tr0, forTy) ∈ dynTable env file G := by rw [← hfc.deq]; exact hmemη
+    have hdl := hl.dynGo tr0 forTy hmem
+    obtain ⟨hrecv, hndS, hrn, hent, hndp, hnc, g, hgmem, hgname, hgG, hgps, hgret⟩ := dynEntry_sig (dynTable_spec hmem) hs
+    obtain ⟨i, hfind, hiname⟩ := hl.impls tr0 forTy hmem s hs
+    -- the compiled expression
+    have hshape : compileCExpr env (.dynCall tr0 m recv args s.2.2) =
+        .call (goTy s.2.2) (.field (gid m) (slotTy s.2.1 s.2.2) (.field "vtable" (vtablePtrTy tr0) (compileImm env recv)))
+          (.field "data" anyTy (compileImm env recv) :: compileImms env args) := by
+      have : (((traitMethodSigs env tr0).getD []).find? (·.1 == m)) = some s := hsg
+      simp only [compileCExpr, this, Option.getD_some]
+    rw [hshape]
+    simp only [CExpr.toExpr]
+    rw [Sem.eval]
+    rcases sem_imm_any hsr (w := w) n with h1 | h1
+    · rw [h1]; trivial
+    · rw [h1]; simp only
+      rcases hsA n w with h2 | h2
+      · rw [h2]; trivial
+      · rw [h2]; simp only
+        rw [hkey, ← hsm] at *
+        simp only [hfind, hiname]
+        -- the implementing function
+        have hfn : fnName g.name = gid (Goml.Mono.traitImplFnName tr0 forTy s.1) := by
+          rw [hgname]
+          simp only [fnName, hent, Bool.false_eq_true, if_false, vn_def, hrn]
+        have hlenA := hrelA.length
+        have hcallr := hu g hgmem hgG η (v :: vs) (gd :: gvs) w gw hfc.eq hfc.deq
+          (by rw [hgps]; exact ⟨hvg, hvt, hrelA⟩) hw
+        rw [hfn, hgname, hgret] at hcallr
+        -- the Go side: through the vtable cell to the wrapper
+        have hcell : gw.heap[loc]? = some (vtableVal env tr0 forTy) := (hw.imm _ _ hcellη).1
+        have hne : ("vtable" : String) ≠ "data" := by decide
+        have hvtE : EvS F gρ gw (.field "vtable" (vtablePtrTy tr0) (compileImm env recv)) (.ok (.ptr loc) gw) :=
+          ev_field_struct (hgr gw) (by rw [lookup_cons_ne _ _ (fun h => hne h.symm)]; exact lookup_cons_self _ _ _)
+        have hslot : EvS F gρ gw (.field (gid s.1) (slotTy s.2.1 s.2.2) (.field "vtable" (vtablePtrTy tr0) (compileImm env recv)))
+            (.ok (.func (dynWrapName tr0 forTy s.1)) gw) :=
+          ev_field_ptr hvtE hcell (lookup_slots (fun s => GVal.func (dynWrapName tr0 forTy s.1)) _ s hndS hs)
+        have hdataE : EvS F gρ gw (.field "data" anyTy (compileImm env recv)) (.ok gd gw) :=
+          ev_field_struct (hgr gw) (lookup_cons_self _ _ _)
+        have hargsE : EvLS F gρ gw (.field "data" anyTy (compileImm env recv) :: compileImms env args) (.ok (gd :: gvs) gw) :=
+          evl_cons hdataE (hgA gw)
+        revert hcallr
+        cases hap : Sem.apply n P w (.fn (Goml.Mono.traitImplFnName tr0 forTy s.1)) (v :: vs) with
+        | ok rv w' =>
+          rintro ⟨η1, hle1, grv, gw', hc, r3, r4, r5⟩
+          exact ⟨η1, hle1, grv, gw', ev_call hslot hargsE (dyn_wrap_call hdl hs hlenA.2 hndp hnc hrecv hvt hvg hc), r3, r4, r5,
+            fun h => by cases h⟩
+        | fail fl w' =>
+          cases fl with
+          | panic k =>
+            rintro ⟨η1, hle1, gw', hc, r5⟩
+            exact ⟨η1, hle1, gw', ev_call hslot hargsE (dyn_wrap_call hdl hs hlenA.2 hndp hnc hrecv hvt hvg hc), r5, rfl⟩
           | fuel => intro _; trivial
           | stuck s => intro _; trivial
 
@@ -893,7 +1072,7 @@ theorem stepV {env : Env} {file : AFile} {G : List String} {P : Prog} {F : GFile
         obtain ⟨x, rfl⟩ := hasTy_int h4
         have := toG_int h3; subst this
         simp only [Sem.unop, gUn]
-        exact ⟨η, η.le_refl, _, gw, ev_neg_int (hg gw), rfl, ⟨rfl, rfl⟩, hw, fun _ => ⟨rfl, rfl⟩⟩
+        exact ⟨η, η.le_refl, _, gw, ev_neg_int (hg gw), rfl, ⟨rfl, rfl, wrap_wrap _ _ _⟩, hw, fun _ => ⟨rfl, rfl⟩⟩
       | not =>
         simp only [unOK, Bool.and_eq_true] at hop
         have e1 := scalarEq_eq hop.1; have e2 := scalarEq_eq hop.2
@@ -984,7 +1163,7 @@ theorem stepV {env : Env} {file : AFile} {G : List String} {P : Prog} {F : GFile
       rcases hfrag with (((hfrag | hfrag) | hfrag) | hfrag) | hfrag
       case inl.inl.inl.inr => exact refcall_sim hl n η Γ ρ w gρ gw Bad name fty args ty hfrag hrel hw hgood hfr hcal
       case inl.inl.inr => exact arrcall_sim hl n η Γ ρ w gρ gw Bad name fty args ty hfrag hrel hw hgood hfr hcal
-      case inl.inr => exact localcall_sim hl hu hb η Γ ρ w gρ gw name fty args ty hfrag hrel hw hfr
+      case inl.inr => exact localcall_sim hl hu hb η Γ ρ w gρ gw name fty args ty hfrag hrel hw hfr hfc.deq
       case inr => exact veccall_sim hl n η Γ ρ w gρ gw Bad name fty args ty hfrag hrel hw hgood hfr hcal
       have hshape := compileCall_frag hfrag
       simp only [CExpr.toExpr, compileCExpr, CExpr.annTy, Imm.toExpr, hshape]
@@ -1043,7 +1222,7 @@ theorem stepV {env : Env} {file : AFile} {G : List String} {P : Prog} {F : GFile
             rcases hsA (n + 1) w with h2 | h2
             · rw [h2]; trivial
             · rw [h2]; simp only
-              have hcallr := hu g hgmem hG' η vs gvs w gw hfc.eq hrelA hw
+              have hcallr := hu g hgmem hG' η vs gvs w gw hfc.eq hfc.deq hrelA hw
               have hfn : fnName name = vn name := by
                 have hne : isEntry name = false := by simpa using hentry
                 simp only [fnName, hne, Bool.false_eq_true, if_false]
@@ -1245,8 +1424,12 @@ theorem stepV {env : Env} {file : AFile} {G : List String} {P : Prog} {F : GFile
           have hni : (d.fields.map fun f => gid f.1)[idx]? = some (gid p.1) := by simp [hf]
           have hlk := lookup_zip _ gs idx (gid p.1) gi hnd hni hgi
           exact ⟨η, η.le_refl, gi, gw, ev_field_struct (hg gw) hlk, hty' ▸ hri, hty' ▸ hti', hw, fun _ => ⟨rfl, rfl⟩⟩
-  | toDyn tr forTy e ty => simp [fragC] at hfrag
-  | dynCall tr m recv args ty => simp [fragC] at hfrag
+  | toDyn tr forTy e ty =>
+    simp only [fragC] at hfrag
+    exact todyn_sim hl n η Γ ρ w gρ gw Bad tr forTy e ty hfrag hrel hw hgood hfc hcal
+  | dynCall tr m recv args ty =>
+    simp only [fragC] at hfrag
+    exact dyncall_sim hl hu η Γ ρ w gρ gw Bad tr m recv args ty hfrag hrel hw hgood hfc
   | go e ty => simp [isGoC] at hgoc
   | proj e idx ty =>
     simp only [fragC, Bool.and_eq_true] at hfrag
